@@ -5,6 +5,7 @@
 package bsim
 
 import (
+	"context"
 	"encoding/json"
 	"fmt"
 	"io"
@@ -15,6 +16,8 @@ import (
 	"strings"
 	"time"
 
+	"github.com/spq/pkappa2/internal/index"
+	"github.com/spq/pkappa2/internal/query"
 	"github.com/spq/pkappa2/verif/netsim"
 	"github.com/spq/pkappa2/verif/oracle"
 	"github.com/spq/pkappa2/verif/sim"
@@ -28,11 +31,13 @@ type History struct {
 }
 
 type Plan struct {
-	Prop      string      `json:"prop"`
-	Seed      uint64      `json:"seed"`
-	Net       netsim.Spec `json:"net"`
-	Hist      []History   `json:"hist"`
-	SnapEvery uint64      `json:"snap_every"`
+	Prop      string        `json:"prop"`
+	Seed      uint64        `json:"seed"`
+	Stacks    []netsim.Spec `json:"stacks,omitempty"` // C07: independent capture sets, imported separately
+	Order     []int         `json:"order,omitempty"`  // C07: order of the resulting index files in the stack
+	Net       netsim.Spec   `json:"net"`
+	Hist      []History     `json:"hist"`
+	SnapEvery uint64        `json:"snap_every"`
 }
 
 type Engine struct{}
@@ -73,6 +78,21 @@ func (Engine) Generate(prop, tier string, seed, run uint64) json.RawMessage {
 		p.SnapEvery = uint64(5 + r.IntN(200))
 	}
 	switch prop {
+	case "C07":
+		// several independent imports (stream ids overlap, hosts and contents differ) stacked in a seeded order
+		ns := 2 + r.IntN(3)
+		for i := 0; i < ns; i++ {
+			c := netsim.DefaultGen()
+			c.MaxConvs = 1 + r.IntN(6)
+			c.MaxFiles = 1 + r.IntN(3)
+			c.MaxPayload = 20_000
+			sp := netsim.Gen(r, c)
+			sp.Prefix = string(rune('a' + i))
+			p.Stacks = append(p.Stacks, *sp)
+		}
+		for i := 0; i < 12; i++ {
+			p.Order = append(p.Order, r.IntN(1000))
+		}
 	case "C05":
 		p.Hist = []History{{Batches: chronological(nf, r)}}
 	case "C08":
@@ -245,6 +265,11 @@ func (Engine) Execute(planJSON json.RawMessage, scratch string) (res sim.RunResu
 	}
 
 	switch p.Prop {
+	case "C07":
+		execStackMerge(&p, scratch, &res, viol)
+		res.SimTimeS = simrt.Elapsed().Seconds()
+		res.SchedSig = sim.Hash(string(planJSON))
+		return
 	case "C05":
 		h := p.Hist[0]
 		_, _ = runHistory(0, h, func(im *oracle.Importer, imported map[int]bool, last bool) bool {
@@ -477,4 +502,156 @@ func renumber(h History, nf int) History {
 	nh.Restart = make([]bool, len(nh.Batches))
 	nh.DropSnap = make([]bool, len(nh.Batches))
 	return nh
+}
+
+var mergeBattery = []string{"sport:80 sort:id", "data:\"FLAG\" sort:id", "cdata:alpha sort:-id", "cbytes:100: sort:id", "chost:10.0.0.0/16 sort:id", "protocol:udp sort:id", "id:1:3 sort:id", "sort:id limit:3", "host:fd00::1:0/112 sort:id", "sbytes::50 sort:id limit:2", "-data:\"passwd\" sort:id", "sort:sbytes,id", "sort:-cbytes,id limit:4"}
+
+func stackSig(readers []*index.Reader) (string, error) {
+	vis, err := oracle.Visible(readers)
+	if err != nil {
+		return "", err
+	}
+	var sb strings.Builder
+	for _, s := range vis {
+		fmt.Fprintf(&sb, "%d:%s;", s.ID, s.ContentKey())
+	}
+	for _, qs := range mergeBattery {
+		q, err := query.Parse(qs)
+		if err != nil {
+			return "", fmt.Errorf("battery %q: %w", qs, err)
+		}
+		limit := uint(0)
+		if q.Limit != nil {
+			limit = *q.Limit
+		}
+		res, more, _, err := index.SearchStreams(context.Background(), readers, nil, q.ReferenceTime, q.Conditions, nil, q.Sorting, limit, 0, nil, nil, false)
+		if err != nil {
+			fmt.Fprintf(&sb, "|%s!%v", qs, err)
+			continue
+		}
+		fmt.Fprintf(&sb, "|%s=%v:", qs, more)
+		for _, s := range res {
+			fmt.Fprintf(&sb, "%d,", s.ID())
+		}
+	}
+	return sb.String(), nil
+}
+
+func diffSig(a, b string) string {
+	pa, pb := strings.Split(a, "|"), strings.Split(b, "|")
+	if pa[0] != pb[0] {
+		sa, sb := strings.Split(pa[0], ";"), strings.Split(pb[0], ";")
+		for i := 0; i < len(sa) && i < len(sb); i++ {
+			if sa[i] != sb[i] {
+				return fmt.Sprintf("stream-content|visible stream differs: %q -> %q", sa[i], sb[i])
+			}
+		}
+		return fmt.Sprintf("stream-set|%d visible streams -> %d", len(sa)-1, len(sb)-1)
+	}
+	for i := 1; i < len(pa) && i < len(pb); i++ {
+		if pa[i] != pb[i] {
+			return fmt.Sprintf("search|search result differs: %s -> %s", pa[i], pb[i])
+		}
+	}
+	return "other|signatures differ"
+}
+
+// execStackMerge: merging any suffix of any stack of index files (repeatedly) changes nothing observable.
+func execStackMerge(p *Plan, scratch string, res *sim.RunResult, viol func(oracleName, sig, msg string)) {
+	var all []*index.Reader
+	defer func() {
+		for _, r := range all {
+			r.Close()
+		}
+	}()
+	for si := range p.Stacks {
+		spec := &p.Stacks[si]
+		capt := netsim.Build(spec)
+		d, err := oracle.MakeDirs(filepath.Join(scratch, fmt.Sprintf("s%d", si)))
+		if err != nil {
+			res.Infra = err.Error()
+			return
+		}
+		im, err := oracle.NewImporter(d)
+		if err != nil {
+			res.Infra = err.Error()
+			return
+		}
+		if err := capt.WriteAll(spec, d.Pcap); err != nil {
+			res.Infra = err.Error()
+			return
+		}
+		// one import per capture file: several index files per stack, with updated streams
+		for _, n := range capt.Names {
+			if _, err := im.Import([]string{n}); err != nil {
+				viol("import", "import-error", err.Error())
+				return
+			}
+		}
+		all = append(all, im.Readers...)
+		im.Readers = nil
+	}
+	// seeded stack order: the property quantifies over every ordered list of index files
+	type ent struct {
+		r   *index.Reader
+		key int
+		pos int
+	}
+	ents := make([]ent, len(all))
+	for i, r := range all {
+		ents[i] = ent{r, p.Order[i%len(p.Order)], i}
+	}
+	sort.SliceStable(ents, func(i, j int) bool { return ents[i].key < ents[j].key })
+	stack := make([]*index.Reader, len(ents))
+	for i, e := range ents {
+		stack[i] = e.r
+	}
+	res.Count("stack_files", int64(len(stack)))
+	mdir := filepath.Join(scratch, "merged")
+	os.MkdirAll(mdir, 0o755)
+	base, err := stackSig(stack)
+	if err != nil {
+		viol("read", "read-error", err.Error())
+		return
+	}
+	for k := len(stack) - 2; k >= 0; k-- {
+		merged, err := index.Merge(mdir, stack[k:])
+		if err != nil {
+			viol("merge", "merge-error", fmt.Sprintf("Merge of the last %d of %d files failed: %v", len(stack)-k, len(stack), err))
+			return
+		}
+		ns := append(append([]*index.Reader(nil), stack[:k]...), merged...)
+		sig, err := stackSig(ns)
+		for _, m := range merged {
+			defer m.Close()
+		}
+		if err != nil {
+			viol("merge", "read-error", fmt.Sprintf("reading the stack after merging the last %d of %d files failed: %v", len(stack)-k, len(stack), err))
+			return
+		}
+		if sig != base {
+			kind, msg, _ := strings.Cut(diffSig(base, sig), "|")
+			viol("merge", kind, fmt.Sprintf("merging the last %d of %d index files: %s", len(stack)-k, len(stack), msg))
+			return
+		}
+		res.Count("c07_suffix_merges", 1)
+		// merge again on top of the merged result (repeatedly)
+		if k > 0 && len(merged) >= 1 {
+			again, err := index.Merge(mdir, ns[k-1:])
+			if err == nil {
+				ns2 := append(append([]*index.Reader(nil), ns[:k-1]...), again...)
+				sig2, err2 := stackSig(ns2)
+				for _, m := range again {
+					m.Close()
+				}
+				if err2 == nil && sig2 != base {
+					kind, msg, _ := strings.Cut(diffSig(base, sig2), "|")
+					viol("merge", "repeated-"+kind, fmt.Sprintf("merging a merged file again (last %d files): %s", len(ns)-k+1, msg))
+					return
+				}
+				res.Count("c07_repeated_merges", 1)
+			}
+		}
+	}
+	res.NonTriv = len(stack) > 2
 }
